@@ -200,6 +200,10 @@ def mutants(name, ini):
         tf([['x', '0 1 b 3 4 5'], ['y', y]], 'non-numeric-x')
         tf([['x', x], ['y', '9 4 1 c -0.5 0']], 'non-numeric-y')
         tf([['xy', '0 1 1 z 2 3 3 4']], 'non-numeric-xy')
+        tf([['x', '0 1 nan 3 4 5'], ['y', y]], 'non-finite-x')
+        tf([['x', x], ['y', '9 4 inf -1 -0.5 0']], 'non-finite-y')
+        tf([['x', x], ['y', '9 4 1 NaN -0.5 0']], 'non-finite-y')
+        tf([['xy', '0 1 1 nan 2 3 3 4']], 'non-finite-xy')
         tf([['x', '0 2 1 3 4 5'], ['y', y]], 'unsorted-x')
         tf([['x', '0 1 1 3 4 5'], ['y', y]], 'repeated-x')
         tf([['x', '0 1 2'], ['y', '3 2 1']], 'three-points')
